@@ -421,9 +421,14 @@ class Ops:
             if self.st.branch(zb == 0, "div0"):
                 self.raise_py("ZeroDivisionError", "division by zero")
             return SV(za / zb, "real")
+        if t in (ast.FloorDiv, ast.Mod) and w == "real":
+            if self.st.branch(zb == 0, "div0"):
+                self.raise_py("ZeroDivisionError", "float floor division by zero")
+            q = z3.ToReal(z3.ToInt(za / zb))          # floor of the real quotient (python float // float)
+            if t is ast.FloorDiv:
+                return SV(q, "real")
+            return SV(za - zb * q, "real")
         if t in (ast.FloorDiv, ast.Mod):
-            if w == "real":
-                raise Unsupported("floor division on reals")
             if self.st.branch(zb == 0, "div0"):
                 self.raise_py("ZeroDivisionError", "integer division or modulo by zero")
             q = z3.If(zb > 0, za / zb, (-za) / (-zb))
